@@ -3,6 +3,6 @@ CONSTANTS
   StrictA = FALSE
   CheckCat = FALSE
   CheckOrder = FALSE
-INVARIANTS NoLeak NoLeakInLedger
+INVARIANTS NoLeak NoLeakInLedger ColdResolves
 POSTCONDITION TraceAccepted
 CHECK_DEADLOCK FALSE
